@@ -149,6 +149,24 @@ func init() {
 		c.res = []Term{x.nameTerm(c.n, "cloned", r)}
 		return true
 	})
+	reg("slices.Contains", "result <==> exists j :: 0 <= j < len(s) && s[j] == v; no effects", func(c *callCtx) bool {
+		sl, ok := types.Unalias(c.argVals[0].Type()).Underlying().(*types.Slice)
+		if !ok {
+			return false
+		}
+		x := c.x
+		h := x.heapElem(sl.Elem())
+		es := x.ss.sortOf(sl.Elem())
+		s0 := c.args[0]
+		at := x.elemAt(h, x.get(c.st, h).S, s0.S, "j", es)
+		r := x.fresh("contains", types.Typ[types.Bool])
+		c.n.assume(mkEq(r.S, fmt.Sprintf("(exists ((j Int)) (and (<= 0 j) (< j (s.len %s)) (= %s %s)))", s0.S, at, c.args[1].S)))
+		// trigger-friendly consequence: no element equals v when the answer is false
+		c.n.assume(mkImp(mkNot(r.S), fmt.Sprintf("(forall ((j Int)) (! (=> (and (<= 0 j) (< j (s.len %s))) (not (= %s %s))) :pattern (%s)))", s0.S, at, c.args[1].S, at)))
+		c.res = []Term{r}
+		return true
+	})
+	specMods["slices.Contains"] = func(p *Program, c *ssa.CallCommon) []string { return nil }
 	specMods["slices.Clone"] = func(p *Program, c *ssa.CallCommon) []string { return nil }
 
 	// --- regexp: a compiled regexp remembers its pattern text; matching is an uninterpreted relation of (pattern, input)
